@@ -346,6 +346,12 @@ def sampled(res, st, std_coq, extra_vo=()):
         cases += [(e, s) for s in gens.regression(pid)]
     report_oracle(res, pid, cases, ORACLE_WHAT[pid])
     res.add_cases(len(cases), len(set(cases)), [gens.case_lines(cases[:1]).strip()[:200], gens.case_lines(cases[-1:]).strip()[:200]])
+    if have and pid in ("C05", "C06", "C08"):
+        # the theorems are about Parse/ExprModel.v: tie it to ParseExpr (full trees, every position) and evaluate the theorems'
+        # hypothesis input_okb on every token list the real lexer produced
+        ins = frag_inputs(rnd, q)
+        frag_correspondence(res, ins, "expression fragment")
+        res.add_cases(len(ins), len(set(ins)), [])
     return cases
 
 
@@ -402,7 +408,9 @@ def frag_correspondence(res, inputs, label):
         if mm == "LEXERR":
             st["lexerr"] += 1
             continue
-        if mm == "FUEL":
+        if mm in ("FUEL", "NOT-INPUT-OK"):
+            # FUEL: the model's fuel bound was too small; NOT-INPUT-OK: the real lexer produced a token list outside the
+            # hypothesis (input_ok) of the span theorems -- either way the theorems do not speak about this input
             st["fuel"] += 1
             bad.append((x, gm[:200], mm))
             continue
